@@ -53,17 +53,33 @@ def run(tier):
     jobs += acts
     # with-items x retry: every attempt executes every index again; failing items succeed the second time; concurrency absent / below /
     # equal to the item count
-    for n_it, conc, bad in ((3, 1, (1, 2)), (3, 2, (0,)), (3, None, (1,)), (4, 2, (0, 3)), (3, 1, (2,)), (2, 2, (0, 1)), (3, 3, (1,))):
+    fam = [(n_it, conc, bad, 1) for (n_it, conc, bad) in ((3, 1, (1, 2)), (3, 2, (0,)), (3, None, (1,)), (4, 2, (0, 3)), (3, 1, (2,)), (2, 2, (0, 1)), (3, 3, (1,)))]
+    # ... and items that fail AGAIN when they are re-executed (two failures, retry count 2)
+    fam += [(3, 1, (1,), 2), (3, 2, (0, 2), 2), (4, 1, (1, 2), 2)]
+    for n_it, conc, bad, nfail in fam:
         Pr = gen.Program()
         Pr.order = ['a', 'z']
-        Pr.tasks = {'a': {'kind': 'action', 'with_items': n_it, 'retry': {'count': 1 + (n_it % 2), 'delay': n_it % 2}, 'succ': [{'to': 'z'}], 'err': [], 'comp': []},
+        Pr.tasks = {'a': {'kind': 'action', 'with_items': n_it, 'retry': {'count': max(nfail, 1 + (n_it % 2)), 'delay': n_it % 2}, 'succ': [{'to': 'z'}], 'err': [], 'comp': []},
                     'z': {'kind': 'action', 'succ': [], 'err': [], 'comp': []}}
         if conc:
             Pr.tasks['a']['concurrency'] = conc
-        Pr.oracle = {'a': {i: (['err', 'ok'] if i in bad else ['ok']) for i in range(n_it)}}
+        Pr.oracle = {'a': {i: (['err'] * nfail + ['ok'] if i in bad else ['ok']) for i in range(n_it)}}
         Pr.flags = {'items': True, 'retry': True}
         for k, pol in enumerate(engrun.POLICIES[1:]):
-            jobs.append(dict(prog=Pr, scheduler=('default', 'legacy')[k % 2], policy=pol, seed=k + 1, label='items_retry_%d_c%s' % (n_it, conc or 0)))
+            jobs.append(dict(prog=Pr, scheduler=('default', 'legacy')[k % 2], policy=pol, seed=k + 1, label='items_retry_%d_c%s_f%d' % (n_it, conc or 0, nfail)))
+    # the same shapes without the retry policy, rerun by the operator (reset off / on) once the run has failed - twice for the
+    # items that fail again
+    for n_it, conc, bad, nfail in fam[::2] + fam[-3:]:
+        Pr = gen.Program()
+        Pr.order = ['a', 'z']
+        Pr.tasks = {'a': {'kind': 'action', 'with_items': n_it, 'succ': [{'to': 'z'}], 'err': [], 'comp': []}, 'z': {'kind': 'action', 'succ': [], 'err': [], 'comp': []}}
+        if conc:
+            Pr.tasks['a']['concurrency'] = conc
+        Pr.oracle = {'a': {i: (['err'] * nfail + ['ok'] if i in bad else ['ok']) for i in range(n_it)}}
+        Pr.flags = {'items': True}
+        for k, pol in enumerate(engrun.POLICIES[1:5]):
+            jobs.append(dict(prog=Pr, scheduler=('default', 'legacy')[k % 2], policy=pol, seed=k + 1, label='items_rerun_%d_c%s_f%d' % (n_it, conc or 0, nfail), max_steps=900,
+                             ops=[dict(at=300 * (r + 1), op='rerun', reset=bool((k + r) % 2), pick=0) for r in range(nfail)]))
     small = ('items2_c0_ok', 'items2_c1_ok', 'items2_c1_err1', 'items0_c1_ok')
     mid = small + ('items3_c1_ok', 'items3_c1_err1', 'items3_c2_err1', 'items2_c3_ok')
     quick_shapes = [x for x in shapes if x[0] != 'items_pair_join']
